@@ -11,7 +11,7 @@ The conditions of `tyWF` that the derive macro does *not* enforce are each shown
 the macro accepts (`deriveOK`) and on which the round trip fails, in the model and (same witnesses, battery types
 S21, S29, S32, S35) on the real code. The model follows /repo after the repairs C16-F1/F5/F7–F11.
 -/
-import SwimVerif.Proofs.FormTypes
+import SwimVerif.Proofs.FormReset
 import SwimVerif.Model.FormIO
 
 set_option linter.unusedVariables false
@@ -264,22 +264,24 @@ theorem C16_reset_is_fresh_on_written (t : Ty) (x : Inst) (hwf : tyWF t = true) 
 /-- The unrestricted statement: a recogniser after `reset()` behaves as a new one, on every input. -/
 def C16_reset_is_fresh : Prop := ∀ (t : Ty) (v : Val), fromValueReused t v = fromValue t v
 
-/-- It is false of the current code (C16-F16): `VecRecognizer::reset` returns to `BodyStage::Init` even for the
-instance made for a flattened attribute body, so a reused `Vec` attribute recogniser has lost its flattened
-alternative. Witness (battery `V:S29`, `seq S18`): `@S29 @a({}) { s: 1 }` is `a = [[]]` for a fresh recogniser (C16-F3)
-and `a = []` for a reused one; the real code gives exactly these two answers for the first and for a later element of
-a `Vec<S29>`. -/
-theorem C16_reset_is_fresh_fails : ¬ C16_reset_is_fresh := by
-  intro h
-  have := h wS29 (toValue wS29 (.struct [.list [], .int 1]))
-  have h1 : (fromValue wS29 (toValue wS29 (.struct [.list [], .int 1]))).map Inst.render = some "([[]],i1)" := by decide
-  have h2 : (fromValueReused wS29 (toValue wS29 (.struct [.list [], .int 1]))).map Inst.render = some "([],i1)" := by decide
-  rw [this, h1] at h2
-  exact absurd h2 (by decide)
+/-- **A recogniser after `reset()` behaves as a new one**: for every schema (no side condition) and every input,
+well-formed or not, reading with a recogniser that was used before gives what a fresh one gives; hence reading n
+values in sequence with `reset()` in between is n independent reads (`C16_vec_is_elementwise`, the `seq` op).
+This was false until /repo b233130 (C16-F16: `VecRecognizer::reset` returned to `Init` even for the instance made for
+a flattened attribute body; witness `@S29 @a({}) { s: 1 }` read as `[[]]` fresh and `[]` reused). The proof depends on
+`Generated.vecResetKeepsAttrMode`, which the extractor re-reads from `VecRecognizer::reset` on every run: a revert of
+the repair makes it `false` and this theorem stops building. -/
+theorem C16_reset_is_fresh_holds : C16_reset_is_fresh :=
+  fun t v => reset_is_fresh rfl t v
 
-/-- Open: with `VecRecognizer::reset` repaired (`Generated.vecResetKeepsAttrMode = true`, fixes/C16-F16.patch) the two
-modes of the model coincide on every input. -/
-def C16_reset_is_fresh_after_repair_open : Prop :=
-  Generated.vecResetKeepsAttrMode = true → C16_reset_is_fresh
+/-- Consequence: every element of a `Vec<T>` is read like a stand-alone `T`. -/
+theorem C16_vec_elements_independent (t : Ty) (vs : List Val) :
+    fromValue (.list t) (.record [] (vs.map fun v => (none, v))) = (collect (vs.map (fromValue t))).map .list := by
+  cases vs with
+  | nil => rfl
+  | cons v vs =>
+    rw [C16_vec_is_elementwise]
+    have : fromValueReused t = fromValue t := funext (C16_reset_is_fresh_holds t)
+    rw [this]; rfl
 
 end SwimVerif.Form
